@@ -36,6 +36,11 @@ fn main() {
             check::work(&a(2), a(3) == "thorough", a(4).parse().unwrap(), a(5).parse().unwrap(), a(6).parse().unwrap(), a(7).parse().unwrap(), a(8).parse().unwrap(), &a(9));
             0
         }
+        "hash" => {
+            let a = |i: usize| args.get(i).cloned().unwrap_or_default();
+            check::hash_cmd(&a(2), a(3).parse().unwrap(), a(4).parse().unwrap(), a(5).parse().unwrap(), verif_seed())
+        }
+        "selfcheck" => check::selfcheck_cmd(args.get(2).and_then(|s| s.parse().ok()).unwrap_or(48), verif_seed()),
         "trace" => check::trace_cmd(&args.get(2).cloned().unwrap_or_default()),
         "replay" => check::replay_cmd(&args.get(2).cloned().unwrap_or_default()),
         _ => {
